@@ -66,8 +66,12 @@ def marginal_utility(c, eis):
     uc = c ** (-1 / eis)
     return uc
 
-pair_het = _hh.add_hetinputs([pair_grids, pair_income, alter_Pi]).add_hetoutputs([marginal_utility])
-pair_stage = StageBlock([ExogenousMaker('Pi', 0, 'stage0'), Continuous1D(backward='Va', policy='a', f=household_new, name='stage1', hetoutputs=[marginal_utility])],
+def pair_asset_income(a, r):
+    ainc = r * a            # takes a shockable input of the block directly
+    return ainc
+
+pair_het = _hh.add_hetinputs([pair_grids, pair_income, alter_Pi]).add_hetoutputs([marginal_utility, pair_asset_income])
+pair_stage = StageBlock([ExogenousMaker('Pi', 0, 'stage0'), Continuous1D(backward='Va', policy='a', f=household_new, name='stage1', hetoutputs=[marginal_utility, pair_asset_income])],
                         name='hh', backward_init=_hh_init, hetinputs=(pair_grids, pair_income, alter_Pi))
 pair_stage_bare = StageBlock([ExogenousMaker('Pi', 0, 'stage0'), Continuous1D(backward='Va', policy='a', f=household_new, name='stage1', hetoutputs=[marginal_utility])],
                              name='hh_bare', backward_init=_hh_init)
